@@ -53,60 +53,95 @@ def T(kind, mr, d=D0):
             "retry_delay_jitter": d[2], "max_retry_delay": d[3]}
 
 
-def transport_sets(tier):
-    W, R = "websocket", "rawsocket"
-    out = []
-    for k in (W, R):
-        for mr in (0, 1, 2, -1):
-            out.append([T(k, mr)])
-    for a in (0, 1, 2):
-        for b in (0, 1, 2):
-            out.append([T(W, a), T(R, b)])
-    out += [[T(R, 0), T(W, 1)], [T(R, 1), T(W, 0)], [T(W, -1), T(R, 0)], [T(R, 0), T(W, -1)]]
-    if tier == "thorough":
-        out += [[T(R, a), T(W, b)] for a in (0, 1, 2) for b in (0, 1, 2) if (a, b) not in ((0, 1), (1, 0))]
-        triples = [(a, b, c) for a in (0, 1, 2) for b in (0, 1, 2) for c in (0, 1, 2)]
-    else:
-        triples = [(0, 0, 0), (1, 0, 2), (0, 1, 0), (2, 1, 0), (0, 2, 1), (1, 1, 1)]
-    for (a, b, c) in triples:
-        out.append([T(W, a), T(R, b), T(W, c)])
-    if tier == "thorough":
-        out += [[T(R, 1), T(R, 0), T(W, -1)], [T(R, 2), T(W, 0), T(R, 1)]]
-    return out
+W, R = "websocket", "rawsocket"
+
+
+def _cfg(ts, main, fatal, depth, z=0.0):
+    return {"transports": ts, "main": main, "is_fatal": fatal, "z": z, "horizon": depth}
+
+
+def pairs(kinds, mrs):
+    return [[T(kinds[0], a), T(kinds[1], b)] for (a, b) in mrs]
+
+
+def triples(mrs):
+    return [[T(W, a), T(R, b), T(W, c)] for (a, b, c) in mrs]
+
+
+ALL9 = [(a, b) for a in (0, 1, 2) for b in (0, 1, 2)]
+ALL27 = [(a, b, c) for a in (0, 1, 2) for b in (0, 1, 2) for c in (0, 1, 2)]
 
 
 def make_jobs(tier):
-    jobs = []
+    """-> list of jobs {fam, cfg, alphabet, stop, first}: one job = the subtree of one configuration
+    under one first outcome (first=None: the whole tree)"""
     thorough = tier == "thorough"
-    # family A: every outcome sequence, no stop()
-    for ts in transport_sets(tier):
-        n = len(ts)
-        for main in (False, True):
-            fat = [None, "refused"]
-            if n == 1 or thorough:
-                fat.append("never")
-            if thorough:
-                fat += ["abort", "always"]
-            for f in fat:
-                if thorough:
-                    depth = 6 if (n == 1 and f in (None, "refused")) else 5
-                else:
-                    depth = 4
-                jobs.append({"fam": "A", "cfg": {"transports": ts, "main": main, "is_fatal": f, "z": 0.0,
-                                                  "horizon": depth},
-                             "alphabet": ALPHA_FULL, "stop": False})
-    # family B: stop() at every point
-    W, R = "websocket", "rawsocket"
-    bsets = [[T(W, 0)], [T(W, 1)], [T(R, 0)], [T(R, 1)], [T(W, 1), T(R, 0)], [T(R, 0), T(W, 1)]]
-    if thorough:
-        bsets += [[T(W, 2)], [T(R, -1)], [T(W, 0), T(R, 1), T(W, 0)], [T(W, -1), T(R, 1)]]
-    for ts in bsets:
-        for main in (False, True):
-            for f in ([None, "refused"] if thorough else [None]):
-                depth = (4 if len(ts) < 3 else 3) if thorough else 3
-                jobs.append({"fam": "B", "cfg": {"transports": ts, "main": main, "is_fatal": f, "z": 0.0,
-                                                  "horizon": depth},
-                             "alphabet": ALPHA_FULL, "stop": True})
+    plan = []           # (fam, cfg, alphabet, stop)
+    singles = [[T(k, mr)] for k in (W, R) for mr in (0, 1, 2, -1)]
+    unlimited = [[T(W, -1), T(R, 0)], [T(R, 0), T(W, -1)]]
+    if not thorough:
+        # family A, core: every sequence of <= 4 outcomes over the full alphabet
+        core = [[T(W, 1)], [T(R, 2)], [T(W, 1), T(R, 0)], [T(R, 0), T(W, 1)], [T(W, 1), T(R, 0), T(W, 2)]]
+        for ts in core:
+            for main in (False, True):
+                plan.append(("A", _cfg(ts, main, None, 4), ALPHA_FULL, False))
+        plan.append(("A", _cfg(core[2], True, "refused", 4), ALPHA_FULL, False))
+        # family A, wide: every sequence of <= 3 outcomes, the whole configuration grid
+        for ts in singles:
+            for main in (False, True):
+                for f in (None, "refused"):
+                    plan.append(("A", _cfg(ts, main, f, 3), ALPHA_FULL, False))
+        for ts in ([T(W, 1)], [T(R, 1)]):
+            for main in (False, True):
+                plan.append(("A", _cfg(ts, main, "never", 3), ALPHA_FULL, False))
+        wide2 = pairs((W, R), ALL9) + pairs((R, W), [(0, 1), (1, 0)]) + unlimited
+        for ts in wide2:
+            for main in (False, True):
+                plan.append(("A", _cfg(ts, main, None, 3), ALPHA_FULL, False))
+        for ts in pairs((W, R), [(0, 1), (1, 0), (1, 1), (2, 0)]):
+            for main in (False, True):
+                plan.append(("A", _cfg(ts, main, "refused", 3), ALPHA_FULL, False))
+        wide3 = triples([(0, 0, 0), (1, 0, 2), (0, 1, 0), (2, 1, 0), (0, 2, 1), (1, 1, 1)])
+        for ts in wide3:
+            for main in (False, True):
+                plan.append(("A", _cfg(ts, main, None, 3), ALPHA_FULL, False))
+        for ts in wide3[1:3]:
+            plan.append(("A", _cfg(ts, True, "refused", 3), ALPHA_FULL, False))
+        # family B: stop() at every point of every sequence of <= 3 outcomes
+        for ts, main in (([T(W, 1)], True), ([T(W, 1)], False), ([T(R, 0)], True),
+                         ([T(W, 1), T(R, 0)], True), ([T(R, 0), T(W, 1)], False)):
+            plan.append(("B", _cfg(ts, main, None, 3), ALPHA_FULL, True))
+    else:
+        deep5 = singles + pairs((W, R), [(0, 0), (0, 1), (1, 0), (1, 1), (2, 1), (0, 2)]) + \
+            pairs((R, W), [(0, 1), (1, 0)]) + unlimited[:1] + triples([(1, 0, 2), (0, 1, 0)])
+        for ts in deep5:
+            for main in (False, True):
+                for f in (None, "refused"):
+                    plan.append(("A", _cfg(ts, main, f, 5), ALPHA_FULL, False))
+        seen = [json_key(ts) for ts in deep5]
+        deep4 = pairs((W, R), ALL9) + pairs((R, W), ALL9) + unlimited + triples(ALL27) + \
+            [[T(R, 1), T(R, 0), T(W, -1)], [T(R, 2), T(W, 0), T(R, 1)]]
+        for ts in deep4:
+            if json_key(ts) in seen:
+                continue
+            for main in (False, True):
+                for f in (None, "refused"):
+                    plan.append(("A", _cfg(ts, main, f, 4), ALPHA_FULL, False))
+        for ts in singles + pairs((W, R), [(0, 1), (1, 0), (1, 1), (2, 0)]) + triples([(1, 0, 2), (0, 1, 0)]):
+            for main in (False, True):
+                for f in ("never", "abort", "always"):
+                    plan.append(("A", _cfg(ts, main, f, 4), ALPHA_FULL, False))
+        for ts, main in (([T(W, 1)], True), ([T(W, 1)], False), ([T(R, 0)], True), ([T(R, 0)], False),
+                         ([T(R, 1)], False), ([T(W, 0), T(R, 0)], True)):
+            plan.append(("A", _cfg(ts, main, None, 6), ALPHA_FULL, False))
+        bsets = [[T(W, 0)], [T(W, 1)], [T(R, 0)], [T(R, 1)], [T(W, 1), T(R, 0)], [T(R, 0), T(W, 1)]]
+        for ts in bsets:
+            for main in (False, True):
+                plan.append(("B", _cfg(ts, main, None, 4), ALPHA_FULL, True))
+        for ts in ([T(W, 2)], [T(R, -1)], [T(W, 0), T(R, 1), T(W, 0)], [T(W, -1), T(R, 1)]):
+            for main in (False, True):
+                for f in (None, "refused"):
+                    plan.append(("B", _cfg(ts, main, f, 3), ALPHA_FULL, True))
     # family C: delay grid x jitter answers over a reduced alphabet, deeper
     for d in DELAY_GRID:
         for z in (-3.0, 0.0, 3.0):
@@ -117,17 +152,26 @@ def make_jobs(tier):
                 csets += [[T(R, -1, d)], [T(W, 1, d), T(R, 2, DELAY_GRID[1]), T(R, 0, d)]]
             for ts in csets:
                 for main in ((False, True) if thorough else (True,)):
-                    jobs.append({"fam": "C", "cfg": {"transports": ts, "main": main, "is_fatal": None, "z": z,
-                                                      "horizon": 6 if thorough else 5},
-                                 "alphabet": ALPHA_DELAY, "stop": False})
-    return jobs
+                    plan.append(("C", _cfg(ts, main, None, 6 if thorough else 5, z), ALPHA_DELAY, False))
+    jobs = []
+    for fam, cfg, alphabet, stop in plan:
+        split = cfg["horizon"] >= (5 if thorough else 4) or (stop and cfg["horizon"] >= 3)
+        n_alpha = len([o for o in alphabet if cfg["main"] or not o.startswith("main_")])
+        for first in (range(n_alpha) if split else [None]):
+            jobs.append({"fam": fam, "cfg": cfg, "alphabet": alphabet, "stop": stop, "first": first})
+    return jobs, len(plan)
+
+
+def json_key(ts):
+    return "+".join("%s%d" % (t["type"][:1], t["max_retries"]) for t in ts)
 
 
 def main(ctx):
-    jobs = make_jobs(ctx.tier)
+    jobs, nconf = make_jobs(ctx.tier)
     # big jobs first (better packing)
     jobs.sort(key=lambda j: -(len(j["cfg"]["transports"]) * 10 + j["cfg"]["horizon"] * 100
-                              + (500 if j["stop"] else 0)))
+                              + (150 if j["stop"] else 0) + (50 if j["cfg"]["main"] else 0)
+                              - (100 if j["first"] is not None else 0)))
     for env in ENVS:
         ctx.pmap(env, "props.c14:job", jobs, chunksize=1)
     c = ctx.counters
@@ -135,7 +179,7 @@ def main(ctx):
     ctx.coverage["transitions"] = int(c["attempts_executed"])
     ctx.coverage["traces_validated_against_impl"] = int(c["evaluations"])
     ctx.coverage["distinct_nontrivial"] = int(c["nontrivial_histories"])
-    ctx.coverage["configurations"] = len(jobs)
+    ctx.coverage["configurations"] = nconf
     for k in ALPHA_FULL:
         ctx.require("outcome_" + k)
     for ph in ("started", "idle", "connecting", "connected", "handshaked", "joined"):
@@ -335,14 +379,20 @@ def _cur_idx(atts, stopped):
     return None
 
 
-def execute(cfg, alphabet, stop, ch):
+def execute(cfg, alphabet, stop, ch, first=None):
+    """first: index of the (forced) outcome of attempt 0 = the subtree this job explores; stop()
+    positions before attempt 0 belong to the subtree first == 0 only"""
     from harness import component as HC
     alpha = [o for o in alphabet if cfg["main"] or not o.startswith("main_")]
 
     def outcome(n, idx):
+        if n == 0 and first is not None:
+            return alpha[first]
         return alpha[ch.choose(len(alpha), "o%d" % n, free=True)]
 
     def stopper(phase, n):
+        if first and n == 0 and phase in ("started", "idle"):
+            return False
         return ch.choose(2, "s:%s:%d" % (phase, n), free=True) == 1
     return HC.Run(cfg, outcome, stopper if stop else None).drive().obs()
 
@@ -362,14 +412,16 @@ def job(a):
     histories = set()
     cnt = {"n": 0}
 
+    first = a.get("first")
+
     def run(ch):
-        return execute(cfg, alphabet, stop, ch)
+        return execute(cfg, alphabet, stop, ch, first)
 
     def on_exec(choices, trace, obs):
         cnt["n"] += 1
         stats["fw_" + fw] += 1
         stats["execs_family_" + a["fam"]] = stats.get("execs_family_" + a["fam"], 0) + 1
-        for k in range(1, len(choices) + 1):
+        for k in range(0, len(choices) + 1):
             nodes.add(hash(tuple(choices[:k])))
         probs = judge(cfg, obs, fw, stats)
         hist = tuple(x["outcome"] for x in obs["attempts"] if x["outcome"])
@@ -377,7 +429,7 @@ def job(a):
             histories.add((hist, tuple(obs["stopped"][:2]) if obs["stopped"] else None))
         recheck = cnt["n"] % 61 == 1 or any(persig.get(sig, 0) < 2 for sig, _ in probs)
         if recheck:
-            obs2 = execute(cfg, alphabet, stop, Chooser(choices))
+            obs2 = execute(cfg, alphabet, stop, Chooser(choices), first)
             stats["replayed_for_determinism"] = stats.get("replayed_for_determinism", 0) + 1
             if obs2 != obs:
                 raise RuntimeError("C14 harness: execution is not deterministic for %s choices=%s:\n%r\n%r" % (
@@ -391,13 +443,13 @@ def job(a):
                                  [(x["idx"], x["t"]) for x in obs["attempts"]], obs["done"]),
                              "replay": {"env": {"fw": fw, "nvx": "0"}, "func": "props.c14:replay",
                                         "arg": {"cfg": cfg, "alphabet": alphabet, "stop": stop,
-                                                "choices": list(choices)}}})
+                                                "first": first, "choices": list(choices)}}})
         if len(samples) < 1 and len(hist) >= 3:
             samples.append({"cfg": cfg_id(cfg), "fw": fw, "history": list(hist),
                             "attempts": [(x["idx"], x["t"]) for x in obs["attempts"]],
                             "done": obs["done"], "stopped": obs["stopped"]})
     res = explore(run, bound=None, on_exec=on_exec)
-    stats["states"] = len(nodes) + 1
+    stats["states"] = len(nodes)
     stats["nontrivial_histories"] = len(histories)
     for sig, n in persig.items():
         stats["violating_executions"] = stats.get("violating_executions", 0) + n
@@ -413,8 +465,8 @@ def replay(a):
     fw = worker.ENV.get("fw")
     cfg = a["cfg"]
     if "choices" in a:
-        obs = execute(cfg, a["alphabet"], a["stop"], Chooser(a["choices"]))
-        obs2 = execute(cfg, a["alphabet"], a["stop"], Chooser(a["choices"]))
+        obs = execute(cfg, a["alphabet"], a["stop"], Chooser(a["choices"]), a.get("first"))
+        obs2 = execute(cfg, a["alphabet"], a["stop"], Chooser(a["choices"]), a.get("first"))
     else:
         obs = HC.run_script(cfg, a["history"], a.get("stop_at"))
         obs2 = HC.run_script(cfg, a["history"], a.get("stop_at"))
